@@ -81,11 +81,11 @@ func (p *copyProp) ID() string { return p.id }
 func (p *copyProp) Rule() string {
 	switch p.id {
 	case "C01":
-		return "scenario = random Merkle DAG (<=25 nodes) + root + link-closed pre-populated destination + store pairing + Concurrency + API, executed under one seeded schedule (12%: the context ends before the call or at a drawn operation - a call that still reports success is judged like any other, one that fails is not judged here); non-trivial = at least 3 tasks ran and at least 3 scheduling steps had two or more candidates; distinct = distinct event-trace hashes (task ids, yield sites, seam events with node ids)"
+		return "scenario = random Merkle DAG (<=25 nodes) + root + link-closed pre-populated destination + store pairing + Concurrency + API, executed under one seeded schedule (12%: the context ends before the call or at a drawn operation, or that operation fails - a call that still reports success is judged like any other, one that fails is not judged here); non-trivial = at least 3 tasks ran and at least 3 scheduling steps had two or more candidates; distinct = distinct event-trace hashes (task ids, yield sites, seam events with node ids)"
 	case "C02":
 		return "scenario as C01 plus 1-3 faults (error before/after the effect, a source body that breaks off half way with a non-EOF error, or cancellation) placed on operations the fault-free execution performed; each scenario is executed fault-free, with faults, and re-run without faults; non-trivial = a fault fired, or >=3 tasks and >=3 real scheduling choices; distinct = distinct (event-trace hash, fault plan)"
 	case "C03":
-		return "scenario = DAG with referrers/indexes + start node + Depth + optional artifact-type/annotation filter + source kind, under one seeded schedule; non-trivial = an ancestor had to be followed, or >=3 tasks and >=3 real scheduling choices; distinct = distinct event-trace hashes"
+		return "scenario = DAG with referrers/indexes + start node + Depth + optional artifact-type/annotation filter + source kind, under one seeded schedule (12% with one cancellation or failing operation, judged as in C01); non-trivial = an ancestor had to be followed, or >=3 tasks and >=3 real scheduling choices; distinct = distinct event-trace hashes"
 	default:
 		return "scenario as C01/C03 with per-operation simulated latencies, recording callbacks and optional callback fault, another client storing a node right before the copy does, or (with MountFrom) the registry failing one exchange of a mount - the copy may fail then, the counts hold all the same; non-trivial = >=3 tasks and >=3 real scheduling choices, or a callback fault fired; distinct = distinct (event-trace hash, fault plan)"
 	}
@@ -231,19 +231,7 @@ func (p *copyProp) Gen(r *Rand, tier string, idx int) any {
 	case "C01":
 		cp.API = pick(r, []string{"Copy", "Copy", "CopyGraph"})
 		if r.Chance(0.12) {
-			c := &FaultSpec{Store: "src", Op: "call", Node: -1, Occur: 1, Kind: "cancel"}
-			switch r.Intn(5) {
-			case 0:
-			case 1:
-				c.Op = "Resolve"
-			case 2:
-				c.Op, c.Node = "Fetch", r.Intn(len(g.Nodes))
-			case 3:
-				c.Store, c.Op, c.Node = "dst", "Exists", r.Intn(len(g.Nodes))
-			default:
-				c.Store, c.Op, c.Node = "dst", "Push", r.Intn(len(g.Nodes))
-			}
-			cp.CancelAt = c
+			cp.CancelAt = drawSingleFault(r, len(g.Nodes), false)
 		}
 		if r.Chance(0.15) && cp.DstKind != "file" {
 			// another client stores the root (or some other node) right before this copy's own Push
@@ -276,6 +264,9 @@ func (p *copyProp) Gen(r *Rand, tier string, idx int) any {
 		}
 	case "C03":
 		cp.API = pick(r, []string{"ExtendedCopy", "ExtendedCopyGraph"})
+		if r.Chance(0.12) {
+			cp.CancelAt = drawSingleFault(r, len(g.Nodes), true)
+		}
 		cp.Root = r.Intn(len(g.Nodes))
 		if remote && !g.Nodes[cp.Root].IsManif {
 			if cp.SrcKind == "remote" || cp.DstKind == "remote" {
@@ -1269,6 +1260,37 @@ func (p *copyProp) runInBubble(rc *RunCtx, sc *Scenario, cp *CopyParams, g *Grap
 	return nil
 }
 
+// drawSingleFault: one cancellation or failure at the call or at a drawn operation (C01, C03:
+// a call that still reports success is judged like any other).
+func drawSingleFault(r *Rand, nn int, withPreds bool) *FaultSpec {
+	c := &FaultSpec{Store: "src", Op: "call", Node: -1, Occur: 1, Kind: "cancel"}
+	n := 5
+	if withPreds {
+		n = 6
+	}
+	switch r.Intn(n) {
+	case 0:
+	case 1:
+		c.Op = "Resolve"
+	case 2:
+		c.Op, c.Node = "Fetch", r.Intn(nn)
+	case 3:
+		c.Store, c.Op, c.Node = "dst", "Exists", r.Intn(nn)
+	case 4:
+		c.Store, c.Op, c.Node = "dst", "Push", r.Intn(nn)
+	default:
+		c.Op, c.Node = "Predecessors", r.Intn(nn)
+	}
+	if c.Op != "call" && r.Bool() {
+		// not a cancellation: the operation fails (before or after its effect, or its body breaks off)
+		c.Kind = pick(r, []string{"before", "before", "after"})
+		if c.Op == "Fetch" && r.Chance(0.3) {
+			c.Kind = "midread"
+		}
+	}
+	return c
+}
+
 // judgeCopyOnce runs the scenario's copy call once and judges it (C01, C03).
 func (p *copyProp) judgeCopyOnce(rc *RunCtx, env *copyEnv, info *RunInfo, closure func(m *Monitor) []func(Event) *Verdict, before map[int]bool, account func(*copyExec), outcomeCheck func(*copyExec, string) *Verdict) *Verdict {
 	g, cp := env.g, env.cp
@@ -1293,14 +1315,14 @@ func (p *copyProp) judgeCopyOnce(rc *RunCtx, env *copyEnv, info *RunInfo, closur
 	if ex.mon.viol != nil {
 		return ex.mon.viol
 	}
-	if ex.mon.firedK["cancel"] > 0 {
+	if ex.mon.firedK["cancel"] > 0 || len(ex.mon.fired) > 0 {
 		if ex.err != nil {
-			// what a cancelled call that fails leaves behind is the subject of C02
-			info.Probes["cancelled_call_failed"]++
+			// what a cancelled or failed call leaves behind is the subject of C02
+			info.Probes["cancelled_or_failed_call"]++
 			info.Outcome = "cancelled"
 			return nil
 		}
-		info.Probes["cancelled_call_reported_success"]++
+		info.Probes["call_reported_success_despite_cancellation_or_failure"]++
 	}
 	lower, upper, ok := wantSets(env)
 	if !ok {
